@@ -2,6 +2,14 @@
 From CV Require Import Model.Base Model.Tracing Model.TracingStart Proofs.BaseP Proofs.TracingP.
 From CV Require Proofs.TracingP2 Proofs.TracingP3.
 
+(* WHAT THESE THEOREMS DO NOT SAY (review finding H3). The label `TEmit sc m x` already names the scenario `sc` a message
+   belongs to; the model has no table from spans to scenarios (the real layer finds the scenario id in the span's
+   extensions and the collector maps it to feature / rule / scenario / retries). So "to the scenario it was emitted for"
+   below means: the forwarder does not CHANGE the attribution it was handed, loses nothing, duplicates nothing, reorders
+   nothing and delivers before the result. WHICH scenario a span belongs to is decided on the real code only: the
+   harness makes every message name its own scenario, attempt and step, and Check/C20Check.v compares that with the
+   scenario / attempt of the Log event it arrives in. C20 is claimed as partial for this reason. *)
+
 (* for every interleaving of step tasks and forwarder (every label list): when a step's result event is emitted,
    every log sent inside its span has already been forwarded, to the scenario it was emitted for *)
 Theorem C20_logs_before_result :
